@@ -50,6 +50,7 @@ func checkC15(c *Ctx) {
 		"non-trivial = the row did not panic and carries a type id; the Lean theorems quantify over exactly these rows")
 	c.Assume("the tables of HcModel/Generated/Catalog.lean are produced by harness/internal/catalog from the same working tree (trusted translator)")
 	corpusC15(c)
+	c15Usable(c)
 	s, d := catalogOf(c)
 	n := map[string]int{}
 	for _, r := range d.Rows {
@@ -184,5 +185,54 @@ func corpusC15(c *Ctx) {
 		if bad != "" {
 			c.Violate("catalog corpus F11: "+t.name+" unusable or mistyped", t.id, t.name, "a usable object of its own type", bad)
 		}
+	}
+}
+
+// c15Usable: "returns a usable object" taken at its word, for every characteristic constructor of the catalog: a valid
+// value of its format, set by the application (typed) and written by a controller (as the JSON decoder hands it over: a
+// float64 for every number), is accepted without panic and is what the object then holds.
+func c15Usable(c *Ctx) {
+	for ci, e := range allCharacteristicCtors {
+		id := "usable#" + e.Name
+		if c.Skip(id) {
+			continue
+		}
+		r := c.CaseRng("usable", ci)
+		cc, pm := newCtorCase(e)
+		if cc == nil {
+			c.Violate("characteristic constructor panics", id, e.Name, "object", pm)
+			continue
+		}
+		ch := cc.C
+		for _, v := range c09ValuesFor(r, ch, cc.Wrapper, false) {
+			in := map[string]interface{}{"constructor": e.Name, "format": ch.Format, "min": fmt.Sprint(ch.MinValue), "max": fmt.Sprint(ch.MaxValue), "value": fmt.Sprintf("%T %v", v, trunc(fmt.Sprint(v), 60))}
+			if msg, pan := safely(func() { ch.UpdateValue(v) }); pan {
+				c.Violate("a valid value set by the application makes the characteristic panic", id, in, "stored", trunc(msg, 100))
+				break
+			}
+			if ch.IsReadable() && !sameGoValue(ch.Value, v) {
+				c.Violate("valid value set by the application is not stored as it is", id, in, fmt.Sprint(v), fmt.Sprintf("%T %v", ch.Value, ch.Value))
+				break
+			}
+			// as a controller sends it
+			var jv interface{} = v
+			if n, isInt := v.(int); isInt {
+				jv = float64(n)
+			}
+			perms := ch.Perms
+			ch.Perms = characteristic.PermsAll()
+			msg, pan := safely(func() { ch.UpdateValueFromConnection(jv, characteristic.TestConn) })
+			stored := ch.Value
+			ch.Perms = perms
+			if pan {
+				c.Violate("a valid value written by a controller makes the characteristic panic", id, in, "stored", trunc(msg, 100))
+				break
+			}
+			if !sameGoValue(stored, v) {
+				c.Violate("value written by a verified controller is not what the application reads", id, in, fmt.Sprint(v), fmt.Sprintf("%T %v", stored, stored))
+				break
+			}
+		}
+		c.Count(id, true, "stream:usable", "usable:"+cc.Wrapper)
 	}
 }
